@@ -33,6 +33,10 @@ import (
 
 const VerifCrashExitCode = 77
 
+// VerifWriteGate, when set, is called by the goroutine that is about to write a file of the store (tag = file class + step,
+// e.g. "wal.write"), after it has read and prepared what it writes.
+var VerifWriteGate func(tag string)
+
 var verifCrash = struct {
 	sync.Mutex
 	hits       int
@@ -182,6 +186,9 @@ func verifTornLen(spec string, n int) int {
 // Untorn: the process dies before the write.  Torn: a prefix of data is written first.
 func verifCrashWrite(step string, path string, file *os.File, data []byte) {
 	tag := verifFileClass(path) + "." + step
+	if g := VerifWriteGate; g != nil {
+		g(tag) // scheduling gate of the /verif concurrency checks (C19): may hold the calling goroutine, changes no data
+	}
 	verifCrash.Lock()
 	defer verifCrash.Unlock()
 	if !verifHit(tag, true) {
